@@ -54,6 +54,7 @@ def run(ctx):
     for tag, inv, what in (
             ("f8", "Total", "non-text map keys have no image (todo!())"),
             ("f9", "AttrKeysUnique", "metric attributes are not de-duplicated"),
+            ("andunique", "UniqueClaimSound", "a concatenation of two unique collections claims is_unique: dedup() is skipped"),
             ("f17", "AttrKeysUnique", "err plus a property named exception.message: duplicate attribute key in logs")):
         rr = ctx.tlc("MCEncode", "Encode_%s.cfg" % tag, workers=2, timeout=600, xmx="2g",
                      expect_violation=True, coverage=False, label="Encode_%s" % tag)
